@@ -2,8 +2,9 @@
    The model of dbc.Parse (lexer DbcLex + parser DbcParse) is total with explicit fuel bounds, and
    every syntax error carries the recorded start of a token, a position inside the text.
    That the Go code itself has no panic / hang is exhibited by the harness only (partial by nature). *)
-From Coq Require Import NArith List.
+From Coq Require Import NArith ZArith List.
 From Acme.C08 Require Import DbcAst Chars DbcLex DbcParse ProofsLex ProofsPos ProofsTotal.
+From Acme.C09 Require Import ImportSkeleton ImportProofs.
 Import ListNotations.
 Local Open Scope N_scope.
 
@@ -48,3 +49,32 @@ Theorem error_position_bounds : forall text l c, valid_pos text (l, c) ->
   1 <= l /\ l <= 1 + count_nl text /\ c <= 5 * N.of_nat (length text).
 Proof. exact ProofsPos.valid_pos_bounds. Qed.
 Print Assumptions error_position_bounds.
+
+(* ---- the importer's counter loops (model coq/C09/ImportSkeleton.v) ----
+   All other loops of importer.go range over slices / maps of the parsed document (one iteration per
+   element); the two counter loops are modelled with the uint32 wrap written out. *)
+
+(* import_fuel_enough / import_total for the extended-multiplexing range expansion after the
+   repairs b2ffdf4, f52045e, c48347e: it terminates with an error or a result for every list of
+   uint32 ranges and every multiplexer with fewer than 2^32 groups, within groupCount + 1
+   iterations per range, and a result holds at most groupCount ids *)
+Theorem import_ranges_total : forall ranges gc,
+  gc < 4294967296 -> Forall (fun r => u32 (fst r) /\ u32 (snd r)) ranges ->
+  match expand_signal ranges gc with
+  | XOk _ ids => (length ids <= N.to_nat gc)%nat
+  | XErr _ => True
+  | XFuel => False
+  end.
+Proof. exact ImportProofs.import_ranges_total. Qed.
+Print Assumptions import_ranges_total.
+
+(* the loop as it was before b2ffdf4 (D26): with To = 2^32 - 1 no fuel is enough *)
+Theorem import_range_loop_refuted : forall fuel from ids, u32 from ->
+  expand_range_unguarded fuel from 4294967295 ids = None.
+Proof. exact ImportProofs.import_range_loop_refuted. Qed.
+Print Assumptions import_range_loop_refuted.
+
+(* importer.go:645, for j := n - 1; j >= 0; j-- : exactly max(n,0) iterations *)
+Theorem import_countdown_total : forall n : Z, countdown (S (Z.to_nat n)) (n - 1) 0 = Some (Z.to_nat n).
+Proof. exact ImportProofs.countdown_total. Qed.
+Print Assumptions import_countdown_total.
